@@ -22,6 +22,7 @@ import (
 	"math"
 	realos "os"
 	"path/filepath"
+	"runtime"
 	"sort"
 	"strings"
 
@@ -275,6 +276,14 @@ func planFaults(ti int, data []byte) []Fault {
 				Bytes: strings.Repeat("ff", fd.Len+9), Block: fd.Block, InLog: fd.InLog, Feat: feat})
 		}
 	}
+	// a log block whose deflate stream inflates to far more than its declared length ("bomb")
+	nb := 0
+	for bi, b := range f.Blocks {
+		if b.Type == 'g' && nb < 2 {
+			nb++
+			out = append(out, Fault{Table: ti, Field: "block.zlib_stream", Class: "inflates_to_64MiB", Kind: "bomb", Block: bi, Feat: feat})
+		}
+	}
 	// truncations: at every block boundary +-1, and below header + footer
 	cuts := map[int]bool{}
 	for _, b := range f.Blocks {
@@ -303,6 +312,30 @@ func planFaults(ti int, data []byte) []Fault {
 func apply(data []byte, ft Fault) []byte {
 	if ft.Kind == "truncate" {
 		return append([]byte{}, data[:ft.Size]...)
+	}
+	if ft.Kind == "bomb" {
+		f, err := fmtdec.Parse(data)
+		if err != nil || ft.Block >= len(f.Blocks) {
+			return data
+		}
+		b := f.Blocks[ft.Block]
+		hoff := 0
+		if b.Off == 0 {
+			hoff = f.HeaderSize
+		}
+		start := int(b.Off)
+		var z bytes.Buffer
+		z.Write(data[start : start+hoff+4])
+		zw, _ := zlib.NewWriterLevel(&z, 9)
+		zero := make([]byte, 1<<20)
+		for i := 0; i < 64; i++ {
+			zw.Write(zero)
+		}
+		zw.Close()
+		out := append([]byte{}, data[:start]...)
+		out = append(out, z.Bytes()...)
+		out = append(out, data[start+b.RawLen:]...)
+		return out
 	}
 	repl := unhex(ft.Bytes)
 	if !ft.InLog {
@@ -381,6 +414,21 @@ func exercise(data []byte, keys []string, oids []string) (outcome string) {
 			outcome = fmt.Sprintf("panic in %s: %v", step, p)
 		}
 	}()
+	// No single call may allocate more than the format can justify: a block is at most 16 MiB (24-bit length),
+	// so reading one costs at most about twice that.  Checked after every call below.
+	var m0 runtime.MemStats
+	runtime.ReadMemStats(&m0)
+	last := m0.TotalAlloc
+	over := func() string {
+		var m runtime.MemStats
+		runtime.ReadMemStats(&m)
+		grew := m.TotalAlloc - last
+		last = m.TotalAlloc
+		if grew > 40<<20 && grew > uint64(len(data))*8 {
+			return fmt.Sprintf("%s allocates without bound: %d MiB in one call on a damaged file of %d KiB", step, grew>>20, len(data)>>10)
+		}
+		return ""
+	}
 	rd, err := reftable.NewReader(&reftable.ByteBlockSource{Source: data}, "damaged")
 	if err != nil {
 		return ""
@@ -415,11 +463,17 @@ func exercise(data []byte, keys []string, oids []string) (outcome string) {
 			return step + ": " + s
 		}
 	}
+	if s := over(); s != "" {
+		return s
+	}
 	step = "SeekLog(\"\")+scan"
 	if it, err := rd.SeekLog("", math.MaxUint64); err == nil {
 		if s := scanL(it); s != "" {
 			return step + ": " + s
 		}
+	}
+	if s := over(); s != "" {
+		return s
 	}
 	for _, k := range keys {
 		step = "SeekRef(key)+scan"
@@ -434,9 +488,15 @@ func exercise(data []byte, keys []string, oids []string) (outcome string) {
 				return step + ": " + s
 			}
 		}
+		if s := over(); s != "" {
+			return s
+		}
 		step = "ReadRef/ReadLogAt"
 		reftable.ReadRef(rd, k)
 		reftable.ReadLogAt(rd, k, math.MaxUint64)
+		if s := over(); s != "" {
+			return s
+		}
 	}
 	for _, o := range oids {
 		step = "RefsFor+scan"
